@@ -18,7 +18,7 @@ NPlus(k)  == BnFixed(BnAdd(CurveN, <<k>>), 32)
 \* every string of length len over the path alphabet, numbered 0 .. 10^len - 1
 Alphabet == <<109, 47, 39, 48, 49, 57, 45, 46, 43, 32>>       \* m / ' 0 1 9 - . + SPACE
 StringNo(len, k) == [i \in 1..len |-> Alphabet[1 + ((k \div (10 ^ (len - i))) % 10)]]
-MaxStrLen == IF Thorough THEN 6 ELSE 4
+MaxStrLen == IF Thorough THEN 5 ELSE 4
 \* cumulative counts: 1 + 10 + 100 + ...
 NStrings == (10 ^ (MaxStrLen + 1) - 1) \div 9
 StringAt(j) ==          \* j in 1..NStrings
